@@ -1022,6 +1022,16 @@ func (c07) Exec(seed int64, i int, tier string) Record {
 	rec.Class = "order-wrong" // class of a disagreement with the specification's sequence
 	rec.Q = []LeanQ{{Driver: "spec", Line: "(q run " + p.Sexp() + " " + canonDoc + ")", Expect: exp, What: "sequence vs Spec.run on the canonical document"}}
 	rec.Q = append(rec.Q, renQ...)
+	// whole-document lifting (Props/C07Doc.lean): hand the model a random LISTING of every map of the document (any
+	// depth, any order) — its canonical form must be the canonical document, and Spec.run on it the real sequence
+	listing, moved := ListingSexp(doc, r)
+	rec.Q = append(rec.Q,
+		LeanQ{Driver: "spec", Line: "(q canon " + listing + ")", Expect: "(q ok " + canonDoc + ")", What: "Canon.canon of a random listing of every map vs the canonical document (ascending byte-wise keys at every depth)"},
+		LeanQ{Driver: "spec", Line: "(q canonrun " + p.Sexp() + " " + listing + ")", Expect: exp, What: "sequence vs Spec.run on Canon.canon of a random listing of every map of the document"})
+	rec.Tags = append(rec.Tags, "oracle:canon-of-listing", pick(moved > 0, "listing:maps-reordered", "listing:already-sorted").(string))
+	if moved >= 3 {
+		rec.Tags = append(rec.Tags, "listing:3+maps-reordered")
+	}
 
 	// evidence
 	rootKeys := []string{}
